@@ -62,7 +62,20 @@ policy_probe True, rules = [] (a TD error may be exactly 0, Monte-Carlo
 learns per episode: no per-segment obligation).  epsilon: scenario key
 `epsilon` (0 / 1 -> epsilon4 0 / 4), default 0.5 (both branches occur).
 Initial tables hold seeded multiples of 1/4 with ties in some rows, so the
-argmax sets are non-trivial.  No logger is passed: the routines read
+argmax sets are non-trivial.
+
+Executed actions (C13 clause ExecutedActionGreedy): every adapter sets
+`env.exec_probe`, so each `step` event carries `qrow` = the action values
+(float32 ordinals) of the routine's CURRENT table - the table most recently
+returned by the learner / planner, or the initial one; q1 + q2 for double
+Q-learning, the float32 sum the routine acts on - at the observation the
+environment returned last, read at the moment the environment receives the
+action.  It does not depend on which greedy evaluations the routine made: an
+action chosen before an update and executed after it is judged against the
+updated table.  Scenario E0S (epsilon 0, `stay=2`: every state is held for two
+steps - self-transitions; `reward_scale=-1`: the value of the action just tried
+goes down) makes the update change the maximiser of the row the agent is still
+in.  No logger is passed: the routines read
 `info["episode"]["r"]` when a logger is given, i.e. need a
 RecordEpisodeStatistics wrapper (not documented).
 """
@@ -71,7 +84,7 @@ from __future__ import annotations
 import numpy as np
 
 from .algos import base_cfg, finish, guarded, interpose, routine
-from .envs import Recorder, ScriptEnv, decode_obs
+from .envs import Recorder, ScriptEnv, decode_obs, qrow_fields
 
 N_OBS, N_ACT = 16, 3
 GAMMA, LR = 0.5, 0.5
@@ -117,9 +130,15 @@ def _argmax(q, obs):
 
 def _setup(sc):
     rec = Recorder()
-    env = ScriptEnv(rec, sc["script"], discrete_actions=N_ACT, discrete_obs=N_OBS)
+    env = ScriptEnv(rec, sc["script"], discrete_actions=N_ACT, discrete_obs=N_OBS, stay=sc.get("stay", 1), reward_scale=sc.get("reward_scale", 1.0))
     eps = sc.get("epsilon")
     return rec, env, (0.5 if eps is None else eps)
+
+
+def _probe_exec(env, current):
+    """Attach to every `step` event the action values of the routine's current table (`current()`) at the observation
+    the action is executed in (ExecutedActionGreedy)."""
+    env.exec_probe = lambda obs: qrow_fields(np.asarray(current())[int(np.asarray(obs))])
 
 
 def _eps4(sc):
@@ -188,6 +207,7 @@ def run_q_learning(sc):
     rec, env, eps = _setup(sc)
     st = {"q": _table(sc["seed"])}
     rec.watch_fn("q", lambda: _digest(st["q"]))
+    _probe_exec(env, lambda: st["q"])
     real_eg, real_greedy, real_upd = m.epsilon_greedy_policy, m.greedy_policy, m._update_policy
 
     def epsilon_greedy_policy(q_table, observation, epsilon, key):
@@ -225,6 +245,7 @@ def run_sarsa(sc):
     rec, env, eps = _setup(sc)
     st = {"q": _table(sc["seed"]), "next": None}
     rec.watch_fn("q", lambda: _digest(st["q"]))
+    _probe_exec(env, lambda: st["q"])
     real_eg, real_upd = m.epsilon_greedy_policy, m._update_policy
 
     def epsilon_greedy_policy(q_table, observation, epsilon, key):
@@ -268,6 +289,7 @@ def run_double_q_learning(sc):
     st = {"q1": _table(sc["seed"], 1), "q2": _table(sc["seed"], 2)}
     rec.watch_fn("q1", lambda: _digest(st["q1"]))
     rec.watch_fn("q2", lambda: _digest(st["q2"]))
+    _probe_exec(env, lambda: st["q1"] + st["q2"])  # the routine acts on q_table1 + q_table2 (double_q_learning.py:79)
     real_eg, real_upd = m.epsilon_greedy_policy, m._dql_update
     other = {"q1": "q2", "q2": "q1"}
 
@@ -306,6 +328,7 @@ def run_monte_carlo(sc):
     st = {"q": _table(sc["seed"])}
     st["n"] = jnp.zeros_like(st["q"])
     rec.watch_fn("q", lambda: _digest(st["q"]))
+    _probe_exec(env, lambda: st["q"])
     rec.watch_fn("n_visits", lambda: _digest(st["n"]))
     real_eg, real_upd = m.epsilon_greedy_policy, m.update
 
@@ -346,6 +369,7 @@ def run_dynaq(sc):
     rec, env, eps = _setup(sc)
     st = {"q": _table(sc["seed"]), "model": None, "planning": False, "last_add": None}
     rec.watch_fn("q", lambda: _digest(st["q"]))
+    _probe_exec(env, lambda: st["q"])
     rec.watch_fn("model", lambda: "none" if st["model"] is None else _digest(st["model"].transition) + _digest(st["model"].reward))
     real_eg, real_q, real_cnt, real_model, real_plan = m.epsilon_greedy_policy, m.q_learning_update, m.counter_update, m.model_update, m.planning
 
